@@ -402,7 +402,7 @@ class Interp:
                 env.lambdas[d.name] = init
             env.vars[d.name] = v
             env.canon.aliases.pop(d.name, None)
-            if v[0] == SYM and v[1] != d.name:
+            if v[0] == SYM and v[1] != d.name and not isinstance(init, C.Lambda):
                 env.canon.aliases[d.name] = v[1]
 
     # -- atoms ------------------------------------------------------------------------------
@@ -416,6 +416,10 @@ class Interp:
         return r.epoch is None or self.epochs.get(r.epoch[0], 0) == r.epoch[1]
 
     def _atom(self, name: str) -> bool:
+        if name not in self.role_by_name:
+            br = self._bool_role(name)
+            if br is not None:
+                name = br.name
         name = self._versioned(name)
         if name in self.bstate:
             return self.bstate[name]
